@@ -259,6 +259,7 @@ class StTr:
         self.pre = []                       # pending hoists: functions node -> node (outermost first)
         self.reads = set()                  # python names (and fparams) read so far
         self.derived = []                   # (attribute, lean text of the state variable, V) of derived attributes
+        self.live_end = set()               # python names needed by whatever follows the translated statements
         self.nloops = 0
 
     # --- names
@@ -832,6 +833,9 @@ class StTr:
             return self.subscript(node)
         if isinstance(node, ast.Call):
             return self.call(node)
+        if isinstance(node, ast.List) and len(node.elts) == 1 and isinstance(node.elts[0], (ast.List, ast.Tuple)):
+            e = self.expr(node.elts[0])                     # [[x, y]] : a one-element list of points
+            return V("[%s]" % e.t, Lst(e.ty))
         if isinstance(node, (ast.Tuple, ast.List)) and len(node.elts) == 2:
             a, b = self.expr(node.elts[0]), self.expr(node.elts[1])
             if a.lit is not None and b.lit is not None:
@@ -1032,9 +1036,9 @@ class StTr:
         if isinstance(s, ast.If):
             return self.if_stmt(s, rest, end)
         if isinstance(s, ast.For):
-            return self.for_stmt(s, k)
+            return self.for_stmt(s, k, self.live_after(rest))
         if isinstance(s, ast.While):
-            return self.while_stmt(s, k)
+            return self.while_stmt(s, k, self.live_after(rest))
         if isinstance(s, ast.Try):
             return self.try_stmt(s, k)
         raise Shape("statement %s at line %d" % (type(s).__name__, s.lineno))
@@ -1069,6 +1073,11 @@ class StTr:
     def assign(self, tgt, value, k):
         if isinstance(tgt, ast.Name):
             def val():
+                if isinstance(value, ast.List) and not value.elts:
+                    ty = self.cfg.get("local_types", {}).get(tgt.id)
+                    if ty is None or ty.k != "L":
+                        raise Shape("type of the empty list assigned to %s" % tgt.id)
+                    return V("[]", ty)
                 v = self.expr(value)
                 if v.ty is None and v.t == "none":
                     raise Shape("None assigned to a local")
@@ -1098,7 +1107,14 @@ class StTr:
                             return k()
                         if names[i] == "_":
                             return go(i + 1)
-                        return self.let(names[i], vs[i], lambda: go(i + 1))
+                        v = vs[i]
+                        if v.lit is not None:
+                            old = self.env.get(names[i])
+                            ty = self.cfg.get("local_types", {}).get(names[i]) or (old.ty if old is not None else None)
+                            if ty is None:
+                                raise Shape("type of the literal assigned to %s" % names[i])
+                            v = self.cast(v, ty)
+                        return self.let(names[i], v, lambda: go(i + 1))
                     return go(0)
                 return self.under(lambda: [self.expr(e) for e in value.elts], then)
             if len(names) != 2:
@@ -1255,10 +1271,10 @@ class StTr:
                 return Ite(c.t, self.branch(s.body, end), self.branch(list(s.orelse) + rest, end))
             if te:
                 return Ite(c.t, self.branch(list(s.body) + rest, end), self.branch(s.orelse, end))
-            return self.phi(c, s, lambda: self.block(rest, end))
+            return self.phi(c, s, lambda: self.block(rest, end), tail_end=None if rest else end)
         return self.under(lambda: self.expr(s.test), then)
 
-    def phi(self, c, s, k):
+    def phi(self, c, s, k, tail_end=None):
         names = [n for n in self.assigned_names(list(s.body) + list(s.orelse)) if n in self.env]
         if not names:
             raise Shape("an if-statement that assigns nothing that was defined before it (line %d)" % s.lineno)
@@ -1276,15 +1292,20 @@ class StTr:
                 return self.let(py, V("if %s then %s else %s" % (c.t, inner.text, old.t), old.ty, 0), k)
             self.env, self.used = env, used
             del self.pre[mark:]
+        if tail_end is not None:              # the if-statement is the last one: each branch goes on to what follows
+            return Ite(c.t, self.branch(s.body, tail_end), self.branch(s.orelse, tail_end))
         env, used = dict(self.env), set(self.used)
         tys = [env[n].ty for n in names]
 
         def yield_end():
             return Ret(tuple_text([self.env[n] for n in names]))
+        saved_live = self.live_end
+        self.live_end = set(saved_live) | set(names)
         na = self.block(list(s.body), yield_end)
         self.env, self.used = dict(env), set(used)
         nb = self.block(list(s.orelse), yield_end)
         self.env, self.used = env, used
+        self.live_end = saved_live
         node = Ite(c.t, na, nb)
         rty = tuple_ty(tys)
         if len(names) == 1:
@@ -1306,12 +1327,24 @@ class StTr:
         return LetNode(r, rty.lean(), node, unpack(0))
 
     # --- loops
+    def live_after(self, rest):
+        """python names (and 'self') that the statements after a loop, or whatever follows them, may read"""
+        live = set(self.live_end)
+        for st in rest:
+            for n in ast.walk(st):
+                if isinstance(n, ast.Name) and (isinstance(n.ctx, ast.Load) or n.id == "self"):
+                    live.add(n.id)
+                elif isinstance(n, ast.AugAssign) and isinstance(n.target, ast.Name):
+                    live.add(n.target.id)
+        return live
+
     def loop_name(self):
         n = len([a for a in self.aux if a[0] == "loop"])
         return "%s_loop%s" % (self.cfg["lean"], "" if n == 0 else "_%d" % (n + 1))
 
     def sub_translator(self, carried):
         sub = StTr(self.src, self.cls, self.cfg, self.aux, used=[f for f, _ in self.cfg.get("fparams", [])])
+        sub.live_end = set(carried)
         names = {}
         for py, v in self.env.items():
             if v.ty is None:
@@ -1321,11 +1354,11 @@ class StTr:
             sub.env[py] = V(nm, v.ty)
         return sub, names
 
-    def emit_loop(self, name, sub_reads, names, carried, iter_ty, alts, raises, extra=""):
+    def emit_loop(self, name, sub_reads, names, carried, outs, iter_ty, alts, raises, extra=""):
         """text of the recursive definition; returns (fparams used, read-only names)"""
         fps = [(f, t) for f, t in self.cfg.get("fparams", []) if f in sub_reads]
         ro = [py for py in self.env if py in names and py in sub_reads and py not in carried]
-        rty = tuple_ty([self.env[c].ty for c in carried])
+        rty = tuple_ty([self.env[c].ty for c in outs])
         res = "Except %s %s" % (self.cfg["err"], rty.lean(True)) if raises else rty.lean()
         sig = "".join(" (%s : %s)" % (f, t) for f, t in fps) + "".join(" (%s : %s)" % (names[py], self.env[py].ty.lean()) for py in ro)
         arrow = " → ".join([self.env[c].ty.lean(True) if self.env[c].ty.k != "P" else "(%s)" % self.env[c].ty.lean() for c in carried]
@@ -1344,9 +1377,12 @@ class StTr:
             self.reads.add(py)
         return call, raises, rty
 
-    def after_loop(self, call_text, raises, rty, carried, k):
-        """bind what the loop returns to new SSA names of the carried variables"""
+    def after_loop(self, call_text, raises, rty, all_carried, carried, k):
+        """bind what the loop returns (the carried variables that are still needed) to new SSA names"""
         tys = [self.env[c].ty for c in carried]
+        for c in all_carried:
+            if c not in carried:
+                del self.env[c]                # its value after the loop is not returned: a later read is outside the subset
         if len(carried) == 1:
             var = self.fresh(carried[0])
             self.env[carried[0]] = V(var, tys[0])
@@ -1365,7 +1401,7 @@ class StTr:
             return Bind(call_text, r, unpack(0))
         return Let(r, rty.lean(), call_text, unpack(0))
 
-    def for_stmt(self, s, k):
+    def for_stmt(self, s, k, live):
         if s.orelse:
             raise Shape("for-else")
         body = list(s.body)
@@ -1373,8 +1409,9 @@ class StTr:
         tnames = [n.id for n in ast.walk(s.target) if isinstance(n, ast.Name)]
         assigned = self.assigned_names(body)
         carried = [py for py in self.env if py in assigned and py not in tnames and self.env[py].ty is not None]
-        if not carried:
-            raise Shape("a loop that changes nothing defined before it (line %d)" % s.lineno)
+        outs = [c for c in carried if c in live]
+        if not outs:
+            raise Shape("a loop that changes nothing that is used after it (line %d)" % s.lineno)
         sub, names = self.sub_translator(carried)
         name = self.loop_name()
         cpat = ", ".join(names[c] for c in carried)
@@ -1383,7 +1420,7 @@ class StTr:
             return lambda: Ret(" ".join(["@@REC@@"] + [paren(sub.env[c], 100) for c in carried] + [iter_arg]), raw=True)
 
         def base():
-            return Ret(tuple_text([V(names[c], None) for c in carried]))
+            return Ret(tuple_text([V(names[c], None) for c in outs]))
 
         if isinstance(it, ast.Call) and dotted(it.func) == "zip" and len(it.args) == 2 and not it.keywords \
                 and isinstance(it.args[0], ast.Name) and ast.unparse(it.args[1]) == "%s[1:]" % it.args[0].id:
@@ -1433,11 +1470,11 @@ class StTr:
         if sub.pre:
             raise Shape("internal: pending hoists in a loop body")
         raises = any(has_raise(n) for _, n in alts)
-        call, raises, rty = self.emit_loop(name, sub.reads, names, carried, iter_ty, alts, raises)
+        call, raises, rty = self.emit_loop(name, sub.reads, names, carried, outs, iter_ty, alts, raises)
         call = " ".join([call] + [paren(self.env[c], 100) for c in carried] + [paren(iter_v, 100)])
-        return self.after_loop(call, raises, rty, carried, k)
+        return self.after_loop(call, raises, rty, carried, outs, k)
 
-    def while_stmt(self, s, k):
+    def while_stmt(self, s, k, live):
         split = self.cfg.get("while_split")
         if s.orelse or not split:
             raise Shape("while loop outside the subset (line %d)" % s.lineno)
@@ -1447,6 +1484,9 @@ class StTr:
         for sp in split:
             if sp not in carried or self.env[sp].ty.k != "L":
                 raise Shape("%s is not a list consumed by the loop" % sp)
+        outs = [c for c in carried if c in live]
+        if not outs:
+            raise Shape("a loop that changes nothing that is used after it (line %d)" % s.lineno)
         name = self.loop_name()
         alts, reads, names0 = [], set(), None
         import itertools
@@ -1471,7 +1511,7 @@ class StTr:
                 return Ret(" ".join(["@@REC@@"] + [paren(sub.env[c], 100) for c in carried]), raw=True)
 
             def base(sub=sub):
-                return Ret(tuple_text([sub.env[c] for c in carried]))
+                return Ret(tuple_text([sub.env[c] for c in outs]))
             cond = sub.expr(s.test)
             if sub.pre:
                 raise Shape("a raising loop condition")
@@ -1487,9 +1527,9 @@ class StTr:
         tb = " ".join(names0[c] if c in split else "_" for c in carried)
         extra = "\ntermination_by %s => %s\ndecreasing_by all_goals (simp only [List.length_cons]; omega)" % (
             tb, " + ".join("%s.length" % names0[c] for c in split))
-        call, raises, rty = self.emit_loop(name, reads, names0, carried, None, alts, raises, extra=extra)
+        call, raises, rty = self.emit_loop(name, reads, names0, carried, outs, None, alts, raises, extra=extra)
         call = " ".join([call] + [paren(self.env[c], 100) for c in carried])
-        return self.after_loop(call, raises, rty, carried, k)
+        return self.after_loop(call, raises, rty, carried, outs, k)
 
 
 # ----------------------------------------------------------------------------- regions, signatures
@@ -1583,6 +1623,7 @@ def translate(src, fns, classes, cfg):
         tr.env[py] = V(lean, ty)
         binders.append((lean, ty.lean()))
     raises = cfg.get("raises", False)
+    tr.live_end = {"self"} if cfg.get("ret") == "state" else ({cfg["ret_name"]} if cfg.get("ret_name") else set())
 
     def end():
         if cfg.get("ret") == "state":
@@ -1920,6 +1961,81 @@ TARGETS += [
                     "`_start_fixed` / `_stop_fixed`")]),
 ]
 
+# ---- persim/landscapes/auxiliary.py : the arithmetic helpers  ->  Model/PLArith.lean (C09)
+PLA_VARS = ("[Add α] [Sub α] [Mul α] [Div α] [Neg α] [Zero α] [One α] [LT α] [DecidableLT α]\n"
+            "  [LE α] [DecidableLE α] [Max α] [Min α] [DecidableEq α] [NatCast α]")
+LLA = Lst(Lst(A))
+PLA = dict(file="plarith", variables=PLA_VARS, err="Err", index_err="Err.indexError",
+           calls={"len": ("len",), "np.pad": ("pad_rows", "zeroRows", "width"), "np.abs": ("abs_int",)},
+           local_types={"output": LPA, "result": LPA, "am": A, "bm": A})
+
+TARGETS += [
+    T(PLA, func="pos_to_slope_interp", lean="pos_to_slope_interp", pyparams=["l"], params=[("l", LPA)],
+      raises=True, ret=LPA, result="Except Err (List (α × α))",
+      obligations=[("pos_to_slope_interp_loop_eq", "(l : List (α × α)) (hl : l ≠ []) (out : List (α × α))",
+                    "pos_to_slope_interp_loop out l ++ [((l.getLast hl).1, 0)] = out ++ posToSlope l",
+                    "by\n  induction l generalizing out with\n  | nil => exact absurd rfl hl\n  | cons p tl ih =>\n"
+                    "    cases tl with\n    | nil => simp [pos_to_slope_interp_loop, posToSlope]\n    | cons q r =>\n"
+                    "      simp only [pos_to_slope_interp_loop, posToSlope, List.getLast_cons_cons]\n"
+                    "      by_cases h : q.1 = p.1\n      · simp only [h, if_true]; exact ih (by simp) out\n"
+                    "      · simp only [h, if_false]\n        rw [ih (by simp)]\n        simp",
+                    "the loop over consecutive pairs (with `if x1 == x0: continue`) appends to `output` what the model's structural "
+                    "recursion `posToSlope` conses, by induction over the list"),
+                   ("src_pos_to_slope_interp_eq_model", "(l : List (α × α)) (hl : l ≠ [])",
+                    "pos_to_slope_interp l = .ok (posToSlope l)",
+                    "by\n  unfold pos_to_slope_interp\n  rw [List.getLast?_eq_some_getLast hl]\n  simp only\n"
+                    "  rw [pos_to_slope_interp_loop_eq l hl []]\n  simp",
+                    "`pos_to_slope_interp` on a non-empty depth is the model's `posToSlope`"),
+                   ("src_pos_to_slope_interp_empty", "", "pos_to_slope_interp ([] : List (α × α)) = .error Err.indexError", "rfl",
+                    "on `[]` the source raises IndexError (`l[-1]`), which is what `Exact.add` answers via `hasEmptyDepth`")]),
+    T(PLA, func="slope_to_pos_interp", lean="slope_to_pos_interp", pyparams=["l"], params=[("l", LPA)],
+      raises=True, ret=LPA, result="Except Err (List (α × α))",
+      obligations=[("slope_to_pos_interp_loop_eq", "(l : List (α × α)) (out : List (α × α)) (x y : α)",
+                    "slope_to_pos_interp_loop (out ++ [(x, y)]) l = .ok (out ++ [(x, y)] ++ slopeToPosAux y l)",
+                    "by\n  induction l generalizing out x y with\n  | nil => simp [slope_to_pos_interp_loop, slopeToPosAux]\n"
+                    "  | cons p tl ih =>\n    cases tl with\n    | nil => simp [slope_to_pos_interp_loop, slopeToPosAux]\n"
+                    "    | cons q r =>\n"
+                    "      simp only [slope_to_pos_interp_loop, slopeToPosAux, List.getLast?_append, List.getLast?_singleton]\n"
+                    "      simp only [Option.some_or]\n      rw [ih]\n      simp",
+                    "the loop reads `y0 = output[-1][1]` back from the accumulated list; the model carries it as an argument"),
+                   ("src_slope_to_pos_interp_eq_model", "(l : List (α × α)) (hl : l ≠ [])",
+                    "slope_to_pos_interp l = .ok (slopeToPos l)",
+                    "by\n  cases l with\n  | nil => exact absurd rfl hl\n  | cons p tl =>\n"
+                    "    simp only [slope_to_pos_interp, List.head?_cons, slopeToPos]\n"
+                    "    have := slope_to_pos_interp_loop_eq (p :: tl) [] p.1 (0 : α)\n"
+                    "    simp only [List.nil_append] at this\n    rw [this]\n    rfl",
+                    "`slope_to_pos_interp` on a non-empty list is the model's `slopeToPos`"),
+                   ("src_slope_to_pos_interp_empty", "", "slope_to_pos_interp ([] : List (α × α)) = .error Err.indexError", "rfl",
+                    "on `[]` the source raises IndexError (`l[0]`)")]),
+    T(PLA, func="sum_slopes", lean="sum_slopes", pyparams=["a", "b"], params=[("a", LPA), ("b", LPA)],
+      ret=LPA, result="List (α × α)", while_split=["a", "b"],
+      obligations=[("sum_slopes_loop_eq", "(am bm : α) (a b : List (α × α)) (res : List (α × α))",
+                    "sum_slopes_loop a b res am bm = res ++ sumSlopes am bm a b",
+                    "by\n  fun_induction sumSlopes am bm a b generalizing res <;>\n    simp_all [sum_slopes_loop]",
+                    "the `while` loop (three branches, running slopes `am`, `bm`, the lists consumed from the front; terminating "
+                    "because `len(a) + len(b)` decreases — checked by Lean) appends to `result` what the model's recursion conses"),
+                   ("src_sum_slopes_eq_model", "(a b : List (α × α))", "sum_slopes a b = sumSlopes 0 0 a b",
+                    "by\n  simp [sum_slopes, sum_slopes_loop_eq]",
+                    "`sum_slopes` is the model's `sumSlopes` started with `am = bm = 0`")]),
+    T(PLA, func="union_vals", lean="union_vals", pyparams=["A", "B"], params=[("A", LLA), ("B", LLA)],
+      ret=Pair(LLA, LLA), result="List (List α) × List (List α)",
+      obligations=[("src_union_vals_eq_model", "(A B : List (List α))", "union_vals A B = unionVals A B",
+                    "by\n  unfold union_vals unionVals\n  simp only\n  by_cases h1 : A.length < B.length\n"
+                    "  · have : (A.length : Int) - (B.length : Int) < 0 := by omega\n"
+                    "    have e : ((A.length : Int) - (B.length : Int)).natAbs = B.length - A.length := by omega\n"
+                    "    simp [h1, this, e]\n"
+                    "  · by_cases h2 : B.length < A.length\n"
+                    "    · have n1 : ¬ ((A.length : Int) - (B.length : Int) < 0) := by omega\n"
+                    "      have p2 : 0 < (A.length : Int) - (B.length : Int) := by omega\n"
+                    "      have e : ((A.length : Int) - (B.length : Int)).toNat = A.length - B.length := by omega\n"
+                    "      simp [h1, h2, n1, p2, e]\n"
+                    "    · have n1 : ¬ ((A.length : Int) - (B.length : Int) < 0) := by omega\n"
+                    "      have n2 : ¬ (0 < (A.length : Int) - (B.length : Int)) := by omega\n"
+                    "      simp [h1, h2, n1, n2]",
+                    "`diff = A.shape[0] - B.shape[0]` as an int, `np.pad` with `|diff|` / `diff` zero rows; the model compares the "
+                    "lengths as naturals")]),
+]
+
 FILES = {
     # key: (python source, generated Lean file, Lean namespace, imports, property, opened namespaces)
     "imager": ("persim/images.py", "SrcImager.lean", "PersimVerif.Src.images",
@@ -1927,6 +2043,8 @@ FILES = {
     "landscaper": ("persim/landscapes/transformer.py", "SrcLandscaper.lean", "PersimVerif.Src.landscapes_transformer",
                    "PersimVerif.Model.Transformers\nimport PersimVerif.Lemmas.SrcBridgeLandscaper", "C18",
                    "PersimVerif.Imager PersimVerif.Transformers"),
+    "plarith": ("persim/landscapes/auxiliary.py", "SrcPLArith.lean", "PersimVerif.Src.landscapes_auxiliary_arith",
+                "PersimVerif.Model.PLArith", "C09", "PersimVerif.PLArith"),
 }
 BRIDGES = {"imager": ["PersimVerif/Lemmas/SrcLib.lean", "PersimVerif/Lemmas/SrcBridgeImager.lean"],
            "landscaper": ["PersimVerif/Lemmas/SrcLib.lean", "PersimVerif/Lemmas/SrcBridgeLandscaper.lean"]}
